@@ -33,6 +33,9 @@ ASSUMPTION_TEXT = {
     "[E-UUID]": "[E-UUID] a temp-file name derived from a fresh uuid4 names no existing file and is none of the file names "
                 "the program already holds",
     "[E-MD5]": "[E-MD5] hashlib.md5 has no collisions on the blobs compared",
+    "[L-MAP]": "[L-MAP] a comprehension `[self._from_base(v, parent=self) for v in xs]` (list and dict form) is the element-wise "
+               "application of the proved per-element contract of _from_base (the implicit loop of the comprehension is "
+               "not given an invariant of its own: lifting on paper)",
     "[A-NOOVERFLOW]": "[A-NOOVERFLOW] the buffered-mode runs of the public methods (C05 transparency) cover executions in which "
                       "the buffer capacity does not force a flush inside the operation; what a forced flush does is covered by "
                       "the clauses of _flush_buffer (it loses nothing, reports conflicts)",
